@@ -1131,7 +1131,9 @@ Plan gen_c09(const std::string &profile, uint64_t seed, const JV &opts) {
 	h.set("want_out", JV::boolean(true)); h.set("end_close_serial", JV::boolean(true));
 	g.p_hold = 0; g.seg_style = 0; g.p_batch = r.chance(0.5) ? 0 : 0.1; g.p_noid = 0.1;
 	g.w["unknown"] = 0.3; g.w["noparams"] = 0.2; g.w["strayreply"] = 0.3; g.w["set"] = 1.5; g.w["call"] = 1; g.w["fetch"] = 2; g.w["get"] = 1; g.w["add"] = 3; g.w["change"] = 2;
-	static const uint64_t dts[] = {0, 0, 0, 1000, 50000, 1000000, 100000000ULL, 2000000000ULL, 6000000000ULL};
+	// (odd amounts: a message must never fall on the very instant a deadline expires - which of the two the event loop sees first is then a matter of
+	// the order of readiness events between a timer and a connection, which this property does not fix)
+	static const uint64_t dts[] = {0, 0, 0, 1003, 50021, 1000033, 100000007ULL, 2000000011ULL, 6000000013ULL};
 	auto dt = [&]() { return dts[r.below(r.chance(0.8) ? 6 : 9)]; };
 	int nclients = 1 + (int)r.below(4);
 	int maxmsg = g_variant.max_message;
